@@ -18,6 +18,9 @@ VERIF = os.path.dirname(os.path.abspath(__file__))
 
 # (name, property, expected rule, expected fn substring, file, old, new)
 MUTANTS = [
+    ("unwind-writes-result", "C04", "R-UNWIND-NO-RESULT", "pop_call_stack_on_error", "crates/runtime/src/vm.rs",
+     "                    if let [.., caller, _] = self.call_stack.as_mut_slice() {\n                        caller.return_value_register = None;\n                    }\n",
+     ""),
     ("regs-run-early-return", "C07", "R-REGS", "KotoVm::run", "crates/runtime/src/vm.rs",
      "        let result = self.execute_instructions();\n        if result.is_err() {\n            self.pop_frame(KValue::Null)?;\n        }\n\n        // Reset the register stack",
      "        let result = self.execute_instructions();\n        if result.is_err() {\n            self.pop_frame(KValue::Null)?;\n            return result;\n        }\n\n        // Reset the register stack"),
